@@ -616,9 +616,19 @@ def record_dedup(repo, col, R):
     exr = idx.expander(repo, fi)
     # the rows added carry the requested state and the rows in view of its kind
     stt = [s_ for s_ in exr.stores if s_.kind == "sub" and s_.key.op == "const" and s_.key.name == "state"]
-    if stt:
-        col.check(stt[-1].value.op == "param" and stt[-1].value.name == fi.params[1], R, fi, "record(state) records the requested state", "new_recs['state'] = state",
-                  f"the new rows are labelled {stt[-1].value.short(40)}", node=stt[-1].node)
+    label, lnode = (stt[-1].value, stt[-1].node) if stt else (None, None)
+    if label is None:
+        # the column given when the frame is built: pd.DataFrame({"rec_index": rows, "state": state})
+        for s_ in exr.stores:
+            if s_.kind == "attr" and s_.key.name == "recordings" and s_.value is not None:
+                kv_ = T.find(s_.value, lambda x: x.op == "kv" and x.args[0].op == "const" and x.args[0].name == "state")
+                if kv_ is not None:
+                    label, lnode = kv_.args[1], s_.node
+    if label is not None:
+        col.check(label.op == "param" and label.name == fi.params[1], R, fi, "record(state) records the requested state", "new_recs['state'] = state",
+                  f"the new rows are labelled {label.short(40)}", node=lnode)
+    else:
+        col.unk(R, fi, "record(state) records the requested state", "the `state` column of the new rows was not found", node=fi.node)
     rs = [s_ for s_ in exr.stores if s_.kind == "attr" and s_.key.name == "recordings" and s_.value is not None]
     dedup, partial = False, None
     for s_ in rs:
